@@ -39,53 +39,88 @@ Definition bout (b : tbuf) : list Z := flat (tb_data b) ++ rev (snd (tb_cur b)).
 
 Definition tb_ok (b : tbuf) : Prop :=
   fst (tb_cur b) = Zlength (snd (tb_cur b)) /\ fst (tb_cur b) <= tb_size b /\ 0 <= tb_size b < 2 ^ 63 /\
-  (tb_has b = false -> tb_size b = 0).
+  (tb_has b = false -> tb_size b = 0) /\ nonempty_regions (tb_data b).
 
 Lemma tb_ok_init : tb_ok tbuf_init.
-Proof. unfold tb_ok, tbuf_init. cbn. repeat split; try lia. Qed.
+Proof. unfold tb_ok, tbuf_init. cbn. repeat split; try lia. constructor. Qed.
 
-(* the size guard of _dispatch_transform_buffer_new (transform.c:158) as a hypothesis: required + size <= MAX *)
+(* what the flush at the head of _dispatch_transform_buffer_new does to the object: same bytes, no empty region *)
+Lemma flush_data : forall dd (has : bool) n (l : list Z), n = Zlength l -> (has = false -> l = []) -> nonempty_regions dd ->
+  let d' := if has && (0 <? n) then data_concat dd (data_create (rev l)) else dd in
+  flat d' = flat dd ++ rev l /\ nonempty_regions d'.
+Proof.
+  intros dd has n l Hn Hh Hne. pose proof (Zlength_nonneg l) as Hl. cbv zeta.
+  destruct has; cbn [andb].
+  - destruct (Z.ltb_spec 0 n).
+    + unfold data_concat. rewrite flat_app, flat_create. split; [reflexivity|].
+      apply Forall_app. split; [exact Hne|apply nonempty_create].
+    + assert (l = []) by (apply Zlength_nil_inv; lia). subst l. cbn [rev]. rewrite app_nil_r. auto.
+  - rewrite (Hh eq_refl). cbn [rev]. rewrite app_nil_r. auto.
+Qed.
+
+(* _dispatch_transform_buffer_new(&buffer, required, size) with something required: never fails (the hint is clamped,
+   transform.c:155-160), keeps the bytes, and leaves room for `required` bytes *)
 Lemma buffer_new_ok : forall b required size,
-  tb_ok b -> 0 < required -> 0 <= size -> required + size <= BUFFER_MALLOC_MAX ->
+  tb_ok b -> 0 < required <= BUFFER_MALLOC_MAX -> 0 <= size ->
   exists b', buffer_new b required size = Ok b' /\ tb_ok b' /\ bout b' = bout b /\ tb_has b' = true /\
              fst (tb_cur b') + required <= tb_size b'.
 Proof.
-  intros [dd has [n l] sz] required size (H1 & H2 & H3 & H4) Hr Hs Hm. cbn [tb_cur tb_size tb_has tb_data fst snd] in *.
+  intros [dd has [n l] sz] required size (H1 & H2 & H3 & H4 & H5) Hr Hs. cbn [tb_cur tb_size tb_has tb_data fst snd] in *.
   unfold buffer_new. cbn [tb_cur tb_size tb_has tb_data fst snd].
   pose proof (Zlength_nonneg l) as Hl. unfold BUFFER_MALLOC_MAX in *.
   replace (required =? 0) with false by lia. cbn [orb].
   rewrite (u64_id (sz - n)) by lia.
   destruct (Z.ltb_spec (sz - n) required) as [Hlt|Hge].
-  - rewrite (u64_id (required + size)) by lia.
-    replace (0 <? required + size) with true by lia. replace (104857600 <? required + size) with false by lia.
+  - replace (required <=? 104857600) with true by lia. cbn [andb].
+    set (size' := if 104857600 - required <? size then 104857600 - required else size).
+    assert (Hs' : 0 <= size' /\ required + size' <= 104857600) by (unfold size'; destruct (Z.ltb_spec (104857600 - required) size); lia).
+    rewrite (u64_id (required + size')) by lia.
+    replace (0 <? required + size') with true by lia. replace (104857600 <? required + size') with false by lia.
+    assert (Hhl : has = false -> l = []) by (intros Hf; apply Zlength_nil_inv; specialize (H4 Hf); lia).
+    destruct (flush_data dd has n l H1 Hhl H5) as [Fd Nd].
     eexists. split; [reflexivity|]. unfold tb_ok, bout. cbn [tb_cur tb_size tb_has tb_data fst snd].
-    repeat split; try lia; try discriminate.
-    destruct has; cbn [andb].
-    + destruct (Z.ltb_spec 0 n).
-      * unfold data_concat. rewrite flat_app, flat_create. cbn [rev]. rewrite app_nil_r. reflexivity.
-      * assert (l = []) by (apply Zlength_nil_inv; lia). subst l. cbn [rev]. rewrite !app_nil_r. reflexivity.
-    + assert (l = []) by (apply Zlength_nil_inv; specialize (H4 eq_refl); lia). subst l. cbn [rev]. reflexivity.
+    split; [|split; [|split; [reflexivity|lia]]].
+    + split; [reflexivity|]. split; [lia|]. split; [lia|]. split; [discriminate|exact Nd].
+    + cbn [rev]. rewrite app_nil_r. exact Fd.
   - exists {| tb_data := dd; tb_has := has; tb_cur := (n, l); tb_size := sz |}.
     split; [reflexivity|]. unfold tb_ok, bout. cbn [tb_cur tb_size tb_has tb_data fst snd].
-    repeat split; try lia; auto.
+    split; [repeat split; auto; lia|]. split; [reflexivity|]. split; [|lia].
     destruct has; [reflexivity|]. specialize (H4 eq_refl). lia.
+Qed.
+
+(* _dispatch_transform_buffer_new(&buffer, 0, size): flush, then allocate what the (clamped) hint says *)
+Lemma buffer_hint_ok : forall b size, tb_ok b -> 0 <= size ->
+  exists b', buffer_new b 0 size = Ok b' /\ tb_ok b' /\ bout b' = bout b /\ snd (tb_cur b') = [] /\
+             (size = 0 -> tb_has b' = false).
+Proof.
+  intros [dd has [n l] sz] size (H1 & H2 & H3 & H4 & H5) Hs. cbn [tb_cur tb_size tb_has tb_data fst snd] in *.
+  unfold buffer_new. cbn [tb_cur tb_size tb_has tb_data fst snd].
+  pose proof (Zlength_nonneg l) as Hl. unfold BUFFER_MALLOC_MAX.
+  change (0 =? 0) with true. cbn [orb]. change (0 <=? 104857600) with true. cbn [andb].
+  replace (104857600 - 0) with 104857600 by lia.
+  set (size' := if 104857600 <? size then 104857600 else size).
+  assert (Hs' : 0 <= size' <= 104857600 /\ (size = 0 -> size' = 0)) by (unfold size'; destruct (Z.ltb_spec 104857600 size); lia).
+  replace (u64 (0 + size')) with size' by (rewrite u64_id; lia).
+  assert (Hhl : has = false -> l = []) by (intros Hf; apply Zlength_nil_inv; specialize (H4 Hf); lia).
+  destruct (flush_data dd has n l H1 Hhl H5) as [Fd Nd].
+  destruct (Z.ltb_spec 0 size').
+  - replace (104857600 <? size') with false by lia.
+    eexists. split; [reflexivity|]. unfold tb_ok, bout. cbn [tb_cur tb_size tb_has tb_data fst snd].
+    split; [|split; [|split; [reflexivity|lia]]].
+    + split; [reflexivity|]. split; [lia|]. split; [lia|]. split; [discriminate|exact Nd].
+    + cbn [rev]. rewrite app_nil_r. exact Fd.
+  - eexists. split; [reflexivity|]. unfold tb_ok, bout. cbn [tb_cur tb_size tb_has tb_data fst snd].
+    split; [|split; [|split; [reflexivity|reflexivity]]].
+    + split; [reflexivity|]. split; [lia|]. split; [lia|]. split; [reflexivity|exact Nd].
+    + cbn [rev]. rewrite app_nil_r. exact Fd.
 Qed.
 
 (* _dispatch_transform_buffer_new(&buffer, 0, 0) at the end of a region: flush *)
 Lemma buffer_flush_ok : forall b, tb_ok b ->
   exists b', buffer_new b 0 0 = Ok b' /\ tb_ok b' /\ bout b' = bout b /\ tb_has b' = false /\ snd (tb_cur b') = [].
 Proof.
-  intros [dd has [n l] sz] (H1 & H2 & H3 & H4). cbn [tb_cur tb_size tb_has tb_data fst snd] in *.
-  unfold buffer_new. cbn [tb_cur tb_size tb_has tb_data fst snd].
-  change (0 =? 0) with true. cbn [orb]. change (u64 (0 + 0)) with 0. change (0 <? 0) with false. cbv iota.
-  eexists. split; [reflexivity|]. unfold tb_ok, bout. cbn [tb_cur tb_size tb_has tb_data fst snd].
-  pose proof (Zlength_nonneg l) as Hl.
-  repeat split; try lia; auto.
-  destruct has; cbn [andb].
-  - destruct (Z.ltb_spec 0 n).
-    + unfold data_concat. rewrite flat_app, flat_create. cbn [rev]. rewrite app_nil_r. reflexivity.
-    + assert (l = []) by (apply Zlength_nil_inv; lia). subst l. cbn [rev]. rewrite !app_nil_r. reflexivity.
-  - assert (l = []) by (apply Zlength_nil_inv; specialize (H4 eq_refl); lia). subst l. cbn [rev]. reflexivity.
+  intros b Hok. destruct (buffer_hint_ok b 0 Hok ltac:(lia)) as (b' & E & Hok' & Ho & Hc & Hh).
+  exists b'. split; [exact E|]. split; [exact Hok'|]. split; [exact Ho|]. split; [apply Hh; reflexivity|exact Hc].
 Qed.
 
 Lemma tb_put_ok : forall site b v,
@@ -93,13 +128,15 @@ Lemma tb_put_ok : forall site b v,
   exists b', tb_put site b v = Ok b' /\ tb_ok b' /\ bout b' = bout b ++ [v] /\ tb_has b' = true /\
              tb_size b' = tb_size b /\ fst (tb_cur b') = fst (tb_cur b) + 1.
 Proof.
-  intros site [dd has [n l] sz] v (H1 & H2 & H3 & H4) Hh Hroom. cbn [tb_cur tb_size tb_has tb_data fst snd] in *.
+  intros site [dd has [n l] sz] v (H1 & H2 & H3 & H4 & H5) Hh Hroom. cbn [tb_cur tb_size tb_has tb_data fst snd] in *.
   unfold tb_put. cbn [tb_cur tb_size tb_has tb_data]. rewrite Hh. unfold wr.
   pose proof (Zlength_nonneg l) as Hl.
   replace ((0 <=? n) && (n <? sz)) with true by lia. cbn [bind].
   eexists. split; [reflexivity|]. unfold tb_ok, bout. cbn [tb_cur tb_size tb_has tb_data fst snd].
-  rewrite Zlength_cons. repeat split; try lia; try discriminate.
-  cbn [rev]. rewrite app_assoc. reflexivity.
+  rewrite Zlength_cons.
+  split; [|split; [|split; [reflexivity|split; [reflexivity|lia]]]].
+  - split; [lia|]. split; [lia|]. split; [lia|]. split; [discriminate|exact H5].
+  - cbn [rev]. rewrite app_assoc. reflexivity.
 Qed.
 
 (* a run of byte writes after a successful buffer_new *)
@@ -410,7 +447,6 @@ Qed.
 Variables (d : data) (pre r post : list Z).
 Hypothesis Hflat : flat d = pre ++ r ++ post.
 Hypothesis Hsz : dsize d < 2 ^ 60.
-Hypothesis Hguard : 2 * Zlength r + 2 <= BUFFER_MALLOC_MAX.
 
 (* "the final result of the flat computation from here is v" *)
 Definition relK (a : res (Z * tbuf)) (v : option (list Z)) : Prop :=
@@ -435,7 +471,7 @@ Qed.
 (* the code after the sequence has been read (transform.c:359-385), with the rest of the loop as K *)
 Lemma emit_sim : forall (K : tbuf -> res (Z * tbuf)) (rest : list Z) next wch first b,
   (forall b', tb_ok b' -> relK (K b') (G16 le false rest (bout b'))) ->
-  tb_ok b -> 0 <= next -> 4 + next <= BUFFER_MALLOC_MAX ->
+  tb_ok b -> 0 <= next <= SIZE_MAX ->
   relK (if SIZE_MAX <? next then Null
         else if (wch =? 65279) && first then K b
         else if (55296 <=? wch) && (wch <=? 57343) then Null
@@ -451,13 +487,13 @@ Lemma emit_sim : forall (K : tbuf -> res (Z * tbuf)) (rest : list Z) next wch fi
           K b)
        (match emit16 le first wch with None => None | Some out => G16 le false rest (bout b ++ out) end).
 Proof.
-  intros K rest next wch first b HK Hok Hn Hmax. unfold emit16. unfold BUFFER_MALLOC_MAX, SIZE_MAX in *.
-  replace (18446744073709551615 <? next) with false by lia.
+  intros K rest next wch first b HK Hok Hn. unfold emit16.
+  replace (SIZE_MAX <? next) with false by lia.
   destruct ((wch =? 65279) && first).
   { rewrite app_nil_r. apply HK, Hok. }
   destruct ((55296 <=? wch) && (wch <=? 57343)); [reflexivity|].
   destruct (65536 <=? wch).
-  - destruct (buffer_new_ok b 4 next Hok ltac:(lia) Hn ltac:(unfold BUFFER_MALLOC_MAX; lia)) as (b1 & E1 & Hok1 & Ho1 & Hh1 & Hr1).
+  - destruct (buffer_new_ok b 4 next Hok ltac:(unfold BUFFER_MALLOC_MAX; lia) ltac:(lia)) as (b1 & E1 & Hok1 & Ho1 & Hh1 & Hr1).
     rewrite E1. cbn [bind]. cbv zeta.
     destruct (tb_put16_ok 374 b1 (Z.land (Z.shiftr (u32 (wch - 65536)) 10) 1023 + 55296) Hok1 Hh1 ltac:(lia))
       as (b2 & E2 & Hok2 & Ho2 & Hh2 & Hs2 & Hn2).
@@ -469,7 +505,7 @@ Proof.
              unit16 le (Z.land (u32 (wch - 65536)) 1023 + 56320)) with (bout b3)
       by (rewrite Ho3, Ho2, Ho1, <- app_assoc; reflexivity).
     apply HK, Hok3.
-  - destruct (buffer_new_ok b 2 next Hok ltac:(lia) Hn ltac:(unfold BUFFER_MALLOC_MAX; lia)) as (b1 & E1 & Hok1 & Ho1 & Hh1 & Hr1).
+  - destruct (buffer_new_ok b 2 next Hok ltac:(unfold BUFFER_MALLOC_MAX; lia) ltac:(lia)) as (b1 & E1 & Hok1 & Ho1 & Hh1 & Hr1).
     rewrite E1. cbn [bind].
     destruct (tb_put16_ok 383 b1 (Z.land wch 65535) Hok1 Hh1 ltac:(lia)) as (b2 & E2 & Hok2 & Ho2 & Hh2 & Hs2 & Hn2).
     rewrite E2. cbn [bind].
@@ -547,7 +583,7 @@ Proof.
                              (skipn (Z.to_nat (utf8_length c)) (c :: tl ++ post)) 0 wch (Zlength pre + s0 + i =? 0) b).
       cbv beta in HE.
       destruct (emit16 le (Zlength pre + s0 + i =? 0) wch) as [out|] eqn:Eem; cbv beta iota;
-        (apply HE; [|exact Hok|lia|unfold BUFFER_MALLOC_MAX; lia]);
+        (apply HE; [|exact Hok|unfold SIZE_MAX; lia]);
         intros b' Hok'; rewrite to16_loop_done by lia; cbn [relK];
         (split; [unfold sk; lia|]); (split; [exact Hok'|]); rewrite Hrest; reflexivity.
   - (* the sequence lies in this region *)
@@ -564,7 +600,7 @@ Proof.
                            ((Zlength r - s0 - (i + utf8_length c)) * 2) wch (Zlength pre + s0 + i =? 0) b).
     cbv beta in HE.
     destruct (emit16 le (Zlength pre + s0 + i =? 0) wch) as [out|] eqn:Eem; cbv beta iota;
-      (apply HE; [|exact Hok|lia|unfold BUFFER_MALLOC_MAX in *; lia]);
+      (apply HE; [|exact Hok|unfold SIZE_MAX; lia]);
       intros b' Hok'; rewrite Hrest;
       replace false with (Zlength pre + s0 + (i + utf8_length c) =? 0) by lia;
       apply IH; try lia; exact Hok'.
@@ -577,33 +613,30 @@ Local Ltac Zify.zify_post_hook ::= Z.div_mod_to_equations.
 Variables (le : bool) (d : data).
 Hypothesis Hsz : dsize d < 2 ^ 60.
 
-Definition guard16 (r : list Z) : Prop := 2 * Zlength r + 2 <= BUFFER_MALLOC_MAX.
-
 Definition bomif (pre : list Z) : list Z := if Zlength pre =? 0 then bom16 le else [].
 
 (* one region: skip bytes of r ++ post were already consumed by the read-ahead of earlier regions *)
 Lemma to16_region_sim : forall pre r post skip b,
-  flat d = pre ++ r ++ post -> r <> [] -> guard16 r ->
+  flat d = pre ++ r ++ post -> r <> [] ->
   0 <= skip <= Zlength r + Zlength post -> (Zlength pre = 0 -> skip = 0) -> tb_ok b -> snd (tb_cur b) = [] ->
   relK le post (to16_region d le (skip, b) (Zlength pre) r)
        (G16 le (Zlength pre + skip =? 0) (skipn (Z.to_nat skip) (r ++ post)) (bout b ++ bomif pre)) /\
   (forall sk b', to16_region d le (skip, b) (Zlength pre) r = Ok (sk, b') -> snd (tb_cur b') = []).
 Proof.
-  intros pre r post skip b Hflat Hr Hg Hskip Hpre0 Hok Hcur.
+  intros pre r post skip b Hflat Hr Hskip Hpre0 Hok Hcur.
   pose proof (Zlength_nonneg pre) as Hp0. pose proof (Zlength_pos r Hr) as Hr0. pose proof (Zlength_nonneg post) as Hq0.
-  unfold guard16, BUFFER_MALLOC_MAX in Hg.
   assert (Ht : Zlength pre + Zlength r + Zlength post < 2 ^ 60) by (pose proof Hsz as Hs; unfold dsize in Hs; rewrite Hflat, !Zlength_app in Hs; lia).
   unfold to16_region.
   (* the BOM in front of everything *)
   cbv zeta.
   assert (HB : exists b2, (if Zlength pre =? 0
                            then if SIZE_MAX <? Zlength r * 2 + 2 then Null
-                                else do b0 <- buffer_new b (Zlength r * 2 + 2) 0; tb_put16 317 le b0 65279
+                                else do b0 <- buffer_new b 2 (u64 (Zlength r * 2 + 2 - 2)); tb_put16 317 le b0 65279
                            else Ok b) = Ok b2 /\ tb_ok b2 /\ bout b2 = bout b ++ bomif pre /\
                           (Zlength pre <> 0 -> b2 = b)).
   { unfold bomif. destruct (Z.eqb_spec (Zlength pre) 0) as [E|E].
     - replace (SIZE_MAX <? Zlength r * 2 + 2) with false by (unfold SIZE_MAX; lia).
-      destruct (buffer_new_ok b (Zlength r * 2 + 2) 0 Hok ltac:(lia) ltac:(lia) ltac:(unfold BUFFER_MALLOC_MAX; lia))
+      destruct (buffer_new_ok b 2 (u64 (Zlength r * 2 + 2 - 2)) Hok ltac:(unfold BUFFER_MALLOC_MAX; lia) ltac:(unfold u64; lia))
         as (b1 & E1 & Hok1 & Ho1 & Hh1 & Hr1).
       rewrite E1. cbn [bind].
       destruct (tb_put16_ok le 317 b1 65279 Hok1 Hh1 ltac:(lia)) as (b2 & E2 & Hok2 & Ho2 & _).
@@ -631,7 +664,7 @@ Proof.
       - rewrite u64_id by lia. reflexivity.
       - assert (skip = 0) by lia. subst skip. rewrite Z.add_0_r, Z.sub_0_r. reflexivity. }
     destruct Hloop as (s0 & Hs0 & Es0 & EL). rewrite EL. clear EL. subst s0.
-    assert (HL := to16_loop_sim le d pre r post Hflat Hsz ltac:(unfold BUFFER_MALLOC_MAX; lia) skip Hs0
+    assert (HL := to16_loop_sim le d pre r post Hflat Hsz skip Hs0
                     (Z.to_nat (Zlength r - skip)) 0 b2 ltac:(lia) ltac:(lia) Hok2).
     rewrite !Z.add_0_r in HL. rewrite skipn_app_Z by lia.
     destruct (to16_loop d le (Zlength pre + skip) r skip (Zlength r - skip) (Z.to_nat (Zlength r - skip)) 0 0 b2)
@@ -646,24 +679,24 @@ Proof.
 Qed.
 
 Lemma to16_regions_sim : forall rest pre skip b,
-  flat d = pre ++ flat rest -> Forall (fun r => r <> []) rest -> Forall guard16 rest ->
+  flat d = pre ++ flat rest -> Forall (fun r => r <> []) rest ->
   0 <= skip <= Zlength (flat rest) -> (Zlength pre = 0 -> skip = 0) -> 0 < Zlength pre + Zlength (flat rest) ->
   tb_ok b -> snd (tb_cur b) = [] ->
   match apply_regions (to16_region d le) rest (Zlength pre) (skip, b) with
-  | Ok (sk', b') => snd (tb_cur b') = [] /\
+  | Ok (sk', b') => tb_ok b' /\ snd (tb_cur b') = [] /\
       G16 le (Zlength pre + skip =? 0) (skipn (Z.to_nat skip) (flat rest)) (bout b ++ bomif pre) = Some (bout b')
   | Null => G16 le (Zlength pre + skip =? 0) (skipn (Z.to_nat skip) (flat rest)) (bout b ++ bomif pre) = None
   | OOB _ => False
   end.
 Proof.
-  induction rest as [|r rest IH]; intros pre skip b Hflat Hne Hg Hskip Hpre0 Hpos Hok Hcur.
+  induction rest as [|r rest IH]; intros pre skip b Hflat Hne Hskip Hpre0 Hpos Hok Hcur.
   - cbn [apply_regions]. change (flat []) with (@nil Z) in *. rewrite Zlength_nil in *.
-    assert (skip = 0) by lia. subst skip. split; [exact Hcur|].
+    assert (skip = 0) by lia. subst skip. split; [exact Hok|]. split; [exact Hcur|].
     unfold bomif. replace (Zlength pre =? 0) with false by lia. rewrite app_nil_r. reflexivity.
-  - apply Forall_cons_iff in Hne. destruct Hne as [Hr Hne]. apply Forall_cons_iff in Hg. destruct Hg as [Hgr Hg].
+  - apply Forall_cons_iff in Hne. destruct Hne as [Hr Hne].
     change (flat (r :: rest)) with (r ++ flat rest) in *. rewrite Zlength_app in *.
     cbn [apply_regions].
-    destruct (to16_region_sim pre r (flat rest) skip b Hflat Hr Hgr Hskip Hpre0 Hok Hcur) as [HR HC].
+    destruct (to16_region_sim pre r (flat rest) skip b Hflat Hr Hskip Hpre0 Hok Hcur) as [HR HC].
     destruct (to16_region d le (skip, b) (Zlength pre) r) as [[sk' b']| |]; cbn [relK] in HR; cbn [bind].
     + destruct HR as (Hk & Hok' & Hv). rewrite Hv.
       pose proof (Zlength_pos r Hr). pose proof (Zlength_nonneg pre).
@@ -677,26 +710,29 @@ Qed.
 End ToUtf16Regions.
 
 (* UTF-8 -> UTF-16 (LE or BE) on ANY bytes split in ANY way: the result is to16_flat of the concatenation (NULL exactly when
-   the flat computation rejects), and the OOB outcome is unreachable.  The size guard of transform.c:158 is the explicit
-   hypothesis guard16: 2 * |region| + 2 <= BUFFER_MALLOC_MAX. *)
+   the flat computation rejects), and the OOB outcome is unreachable.  No hypothesis on region sizes: since the repair of
+   _dispatch_transform_buffer_new (the size hint is clamped, the output is allocated in pieces of at most
+   BUFFER_MALLOC_MAX) the size test of transform.c:164 cannot fail.  The returned object has no empty region. *)
 Theorem to_utf16_flat : forall le d,
-  Forall (fun r => r <> []) d -> dsize d < 2 ^ 60 -> Forall guard16 d ->
-  flat_res (to_utf16 le d) = match to16_flat le (flat d) with Some x => Ok x | None => Null end.
+  Forall (fun r => r <> []) d -> dsize d < 2 ^ 60 ->
+  flat_res (to_utf16 le d) = match to16_flat le (flat d) with Some x => Ok x | None => Null end /\
+  (forall e, to_utf16 le d = Ok e -> nonempty_regions e).
 Proof.
-  intros le d Hne Hsz Hg. unfold to_utf16.
-  destruct d as [|r d']; [reflexivity|].
+  intros le d Hne Hsz. unfold to_utf16.
+  destruct d as [|r d']; [split; [reflexivity|intros e He; inversion He; constructor]|].
   assert (Hpos : 0 < Zlength (flat (r :: d'))).
   { change (flat (r :: d')) with (r ++ flat d'). rewrite Zlength_app. apply Forall_cons_iff in Hne.
     pose proof (Zlength_pos r (proj1 Hne)). pose proof (Zlength_nonneg (flat d')). lia. }
-  assert (H := to16_regions_sim le (r :: d') Hsz (r :: d') [] 0 tbuf_init eq_refl Hne Hg ltac:(lia) ltac:(auto)
+  assert (H := to16_regions_sim le (r :: d') Hsz (r :: d') [] 0 tbuf_init eq_refl Hne ltac:(lia) ltac:(auto)
                  ltac:(rewrite Zlength_nil; lia) tb_ok_init eq_refl).
   change (Zlength (@nil Z)) with 0 in H. change (Z.to_nat 0) with 0%nat in H. change (skipn 0 ?l) with l in H.
   unfold to16_flat. destruct (flat (r :: d')) as [|c tl] eqn:Ef; [rewrite Zlength_nil in Hpos; lia|].
   change (0 + 0 =? 0) with true in H. unfold bomif in H. change (Zlength (@nil Z) =? 0) with true in H.
   change (bout tbuf_init) with (@nil Z) in H. cbn [app] in H.
   destruct (apply_regions (to16_region (r :: d') le) (r :: d') 0 (0, tbuf_init)) as [[sk b]| |]; cbn [bind flat_res].
-  - destruct H as [Hc Hv]. rewrite Hv. unfold bout. rewrite Hc. cbn [rev]. rewrite app_nil_r. reflexivity.
-  - rewrite H. reflexivity.
+  - destruct H as (Hokb & Hc & Hv). rewrite Hv. unfold bout. rewrite Hc. cbn [rev]. rewrite app_nil_r.
+    split; [reflexivity|]. intros e He. inversion He; subst e. apply Hokb.
+  - rewrite H. split; [reflexivity|discriminate].
   - contradiction.
 Qed.
 
@@ -791,24 +827,24 @@ Proof.
 Qed.
 
 Lemma put_utf8_ok : forall b wch next,
-  tb_ok b -> 0 <= next -> 4 + next <= BUFFER_MALLOC_MAX ->
+  tb_ok b -> 0 <= next ->
   exists b', put_utf8 b wch next = Ok b' /\ tb_ok b' /\ bout b' = bout b ++ utf8_enc wch.
 Proof.
-  intros b wch next Hok Hn Hmax. unfold put_utf8, utf8_enc.
+  intros b wch next Hok Hn. unfold put_utf8, utf8_enc.
   destruct (wch <? 128).
-  { destruct (buffer_new_ok b 1 next Hok ltac:(lia) Hn ltac:(lia)) as (b1 & E1 & Hok1 & Ho1 & Hh1 & Hr1).
+  { destruct (buffer_new_ok b 1 next Hok ltac:(unfold BUFFER_MALLOC_MAX; lia) Hn) as (b1 & E1 & Hok1 & Ho1 & Hh1 & Hr1).
     rewrite E1. cbn [bind].
     destruct (tb_put_ok 507 b1 (u8 (Z.land wch 255)) Hok1 Hh1 ltac:(lia)) as (b2 & E2 & Hok2 & Ho2 & _).
     exists b2. rewrite E2, Ho2, Ho1. auto. }
   destruct (wch <? 2048).
-  { destruct (buffer_new_ok b 2 next Hok ltac:(lia) Hn ltac:(lia)) as (b1 & E1 & Hok1 & Ho1 & Hh1 & Hr1).
+  { destruct (buffer_new_ok b 2 next Hok ltac:(unfold BUFFER_MALLOC_MAX; lia) Hn) as (b1 & E1 & Hok1 & Ho1 & Hh1 & Hr1).
     rewrite E1. cbn [bind].
     destruct (tb_put_ok 512 b1 (u8 (Z.lor 192 (Z.shiftr wch 6))) Hok1 Hh1 ltac:(lia)) as (b2 & E2 & Hok2 & Ho2 & Hh2 & Hs2 & Hn2).
     rewrite E2. cbn [bind].
     destruct (tb_put_ok 513 b2 (u8 (Z.lor 128 (Z.land wch 63))) Hok2 Hh2 ltac:(lia)) as (b3 & E3 & Hok3 & Ho3 & _).
     exists b3. rewrite E3, Ho3, Ho2, Ho1, <- app_assoc. auto. }
   destruct (wch <? 65536).
-  { destruct (buffer_new_ok b 3 next Hok ltac:(lia) Hn ltac:(lia)) as (b1 & E1 & Hok1 & Ho1 & Hh1 & Hr1).
+  { destruct (buffer_new_ok b 3 next Hok ltac:(unfold BUFFER_MALLOC_MAX; lia) Hn) as (b1 & E1 & Hok1 & Ho1 & Hh1 & Hr1).
     rewrite E1. cbn [bind].
     destruct (tb_put_ok 518 b1 (u8 (Z.lor 224 (Z.shiftr wch 12))) Hok1 Hh1 ltac:(lia)) as (b2 & E2 & Hok2 & Ho2 & Hh2 & Hs2 & Hn2).
     rewrite E2. cbn [bind].
@@ -817,7 +853,7 @@ Proof.
     destruct (tb_put_ok 520 b3 (u8 (Z.lor 128 (Z.land wch 63))) Hok3 Hh3 ltac:(lia)) as (b4 & E4 & Hok4 & Ho4 & _).
     exists b4. rewrite E4, Ho4, Ho3, Ho2, Ho1, <- !app_assoc. auto. }
   destruct (wch <? 2097152).
-  { destruct (buffer_new_ok b 4 next Hok ltac:(lia) Hn ltac:(lia)) as (b1 & E1 & Hok1 & Ho1 & Hh1 & Hr1).
+  { destruct (buffer_new_ok b 4 next Hok ltac:(unfold BUFFER_MALLOC_MAX; lia) Hn) as (b1 & E1 & Hok1 & Ho1 & Hh1 & Hr1).
     rewrite E1. cbn [bind].
     destruct (tb_put_ok 525 b1 (u8 (Z.lor 240 (Z.shiftr wch 18))) Hok1 Hh1 ltac:(lia)) as (b2 & E2 & Hok2 & Ho2 & Hh2 & Hs2 & Hn2).
     rewrite E2. cbn [bind].
@@ -832,7 +868,6 @@ Qed.
 Variables (d : data) (pre r post : list Z).
 Hypothesis Hflat : flat d = pre ++ r ++ post.
 Hypothesis Hsz : dsize d < 2 ^ 60.
-Hypothesis Hguard : Zlength r + 6 <= BUFFER_MALLOC_MAX.
 Variable s0 : Z.
 Hypothesis Hs0 : 0 <= s0 < Zlength r.
 
@@ -1033,8 +1068,7 @@ Proof.
                   (G8 le false (skipn (Z.to_nat (2 * i_f + 2)) S8) (bout b ++ utf8_enc wch))).
   { intros wch i_f sk_f Hif Hpf. cbv zeta.
     replace (SIZE_MAX <? (mx8 - i_f) * 2) with false by (unfold SIZE_MAX, sz8 in *; pose proof Htot8; lia).
-    destruct (put_utf8_ok b wch ((mx8 - i_f) * 2) Hok ltac:(lia) ltac:(unfold BUFFER_MALLOC_MAX, sz8 in *; lia))
-      as (b' & E' & Hok' & Ho').
+    destruct (put_utf8_ok b wch ((mx8 - i_f) * 2) Hok ltac:(lia)) as (b' & E' & Hok' & Ho').
     rewrite E'. cbn [bind]. rewrite <- Ho'. apply Hcont; auto; lia. }
   assert (Hfirst : (Zlength pre + s0 =? 0) && (i =? 0) = (Zlength pre + s0 + 2 * i =? 0)) by lia.
   destruct (first_read i Hi Hin) as [[Hs E1]|(x & y & sk1 & EL & E1 & Hp1)]; rewrite E1; cbn [bind].
@@ -1070,26 +1104,22 @@ Local Ltac Zify.zify_post_hook ::= Z.div_mod_to_equations.
 Variables (le : bool) (d : data).
 Hypothesis Hsz : dsize d < 2 ^ 60.
 
-Definition guard8 (r : list Z) : Prop := Zlength r + 6 <= BUFFER_MALLOC_MAX.
-
 Lemma from16_region_sim : forall pre r post skip b,
-  flat d = pre ++ r ++ post -> r <> [] -> guard8 r ->
+  flat d = pre ++ r ++ post -> r <> [] ->
   0 <= skip <= Zlength r + Zlength post -> (Zlength pre = 0 -> skip = 0) -> tb_ok b -> snd (tb_cur b) = [] ->
   relK8 le post (from16_region d le (skip, b) (Zlength pre) r)
         (G8 le (Zlength pre + skip =? 0) (skipn (Z.to_nat skip) (r ++ post)) (bout b)) /\
   (forall sk b', from16_region d le (skip, b) (Zlength pre) r = Ok (sk, b') -> snd (tb_cur b') = []).
 Proof.
-  intros pre r post skip b Hflat Hr Hg Hskip Hpre0 Hok Hcur.
+  intros pre r post skip b Hflat Hr Hskip Hpre0 Hok Hcur.
   pose proof (Zlength_nonneg pre) as Hp0. pose proof (Zlength_pos r Hr) as Hr0. pose proof (Zlength_nonneg post) as Hq0.
-  unfold guard8, BUFFER_MALLOC_MAX in Hg.
   assert (Ht : Zlength pre + Zlength r + Zlength post < 2 ^ 60)
     by (pose proof Hsz as Hs; unfold dsize in Hs; rewrite Hflat, !Zlength_app in Hs; lia).
   unfold from16_region. cbv zeta.
-  assert (HB : exists b2, (if Zlength pre =? 0 then buffer_new b (howmany (Zlength r) 3 * 2) 0 else Ok b) = Ok b2 /\
+  assert (HB : exists b2, (if Zlength pre =? 0 then buffer_new b 0 (howmany (Zlength r) 3 * 2) else Ok b) = Ok b2 /\
                           tb_ok b2 /\ bout b2 = bout b /\ (Zlength pre <> 0 -> b2 = b)).
   { destruct (Z.eqb_spec (Zlength pre) 0) as [E|E].
-    - destruct (buffer_new_ok b (howmany (Zlength r) 3 * 2) 0 Hok ltac:(unfold howmany; lia) ltac:(lia)
-                  ltac:(unfold BUFFER_MALLOC_MAX, howmany; lia)) as (b1 & E1 & Hok1 & Ho1 & _).
+    - destruct (buffer_hint_ok b (howmany (Zlength r) 3 * 2) Hok ltac:(unfold howmany; lia)) as (b1 & E1 & Hok1 & Ho1 & _).
       exists b1. split; [exact E1|]. split; [exact Hok1|]. split; [exact Ho1|]. intros Hc; exfalso; apply Hc, E.
     - exists b. auto. }
   destruct HB as (b2 & EB & Hok2 & Ho2 & Hsame). rewrite EB. cbn [bind]. rewrite <- Ho2.
@@ -1114,7 +1144,7 @@ Proof.
       - rewrite u64_id by lia. reflexivity.
       - assert (skip = 0) by lia. subst skip. rewrite Z.add_0_r, Z.sub_0_r. reflexivity. }
     rewrite EL. clear EL.
-    assert (HL := from16_loop_sim le d pre r post Hflat Hsz ltac:(unfold BUFFER_MALLOC_MAX; lia) skip Hs0
+    assert (HL := from16_loop_sim le d pre r post Hflat Hsz skip Hs0
                     (Z.to_nat (mx8 r skip)) 0 b2 ltac:(lia) ltac:(unfold sz8; lia) ltac:(lia) Hok2).
     change (2 * 0) with 0 in HL. rewrite Z.add_0_r in HL. change (Z.to_nat 0) with 0%nat in HL.
     change (skipn 0 ?l) with l in HL. unfold S8 in HL. rewrite skipn_app_Z by lia.
@@ -1130,23 +1160,23 @@ Proof.
 Qed.
 
 Lemma from16_regions_sim : forall rest pre skip b,
-  flat d = pre ++ flat rest -> Forall (fun r => r <> []) rest -> Forall guard8 rest ->
+  flat d = pre ++ flat rest -> Forall (fun r => r <> []) rest ->
   0 <= skip <= Zlength (flat rest) -> (Zlength pre = 0 -> skip = 0) ->
   tb_ok b -> snd (tb_cur b) = [] ->
   match apply_regions (from16_region d le) rest (Zlength pre) (skip, b) with
-  | Ok (sk', b') => snd (tb_cur b') = [] /\
+  | Ok (sk', b') => tb_ok b' /\ snd (tb_cur b') = [] /\
       G8 le (Zlength pre + skip =? 0) (skipn (Z.to_nat skip) (flat rest)) (bout b) = Some (bout b')
   | Null => G8 le (Zlength pre + skip =? 0) (skipn (Z.to_nat skip) (flat rest)) (bout b) = None
   | OOB _ => False
   end.
 Proof.
-  induction rest as [|r rest IH]; intros pre skip b Hflat Hne Hg Hskip Hpre0 Hok Hcur.
+  induction rest as [|r rest IH]; intros pre skip b Hflat Hne Hskip Hpre0 Hok Hcur.
   - cbn [apply_regions]. change (flat []) with (@nil Z) in *. rewrite Zlength_nil in *.
-    assert (skip = 0) by lia. subst skip. split; [exact Hcur|]. reflexivity.
-  - apply Forall_cons_iff in Hne. destruct Hne as [Hr Hne]. apply Forall_cons_iff in Hg. destruct Hg as [Hgr Hg].
+    assert (skip = 0) by lia. subst skip. split; [exact Hok|]. split; [exact Hcur|]. reflexivity.
+  - apply Forall_cons_iff in Hne. destruct Hne as [Hr Hne].
     change (flat (r :: rest)) with (r ++ flat rest) in *. rewrite Zlength_app in *.
     cbn [apply_regions].
-    destruct (from16_region_sim pre r (flat rest) skip b Hflat Hr Hgr Hskip Hpre0 Hok Hcur) as [HR HC].
+    destruct (from16_region_sim pre r (flat rest) skip b Hflat Hr Hskip Hpre0 Hok Hcur) as [HR HC].
     destruct (from16_region d le (skip, b) (Zlength pre) r) as [[sk' b']| |]; cbn [relK8] in HR; cbn [bind].
     + destruct HR as (Hk & Hok' & Hv). rewrite Hv.
       pose proof (Zlength_pos r Hr). pose proof (Zlength_nonneg pre).
@@ -1160,20 +1190,22 @@ End FromUtf16Regions.
 
 (* UTF-16 (LE or BE) -> UTF-8 on ANY bytes split in ANY way (inside code units, inside surrogate pairs): the result is
    from16_flat of the concatenation, NULL exactly when the flat computation rejects, and the OOB outcome is unreachable.
-   Size guard (transform.c:158) as hypothesis guard8: |region| + 6 <= BUFFER_MALLOC_MAX. *)
+   No hypothesis on region sizes (see to_utf16_flat).  The returned object has no empty region. *)
 Theorem from_utf16_flat : forall le d,
-  Forall (fun r => r <> []) d -> dsize d < 2 ^ 60 -> Forall guard8 d ->
-  flat_res (from_utf16 le d) = match from16_flat le (flat d) with Some x => Ok x | None => Null end.
+  Forall (fun r => r <> []) d -> dsize d < 2 ^ 60 ->
+  flat_res (from_utf16 le d) = match from16_flat le (flat d) with Some x => Ok x | None => Null end /\
+  (forall e, from_utf16 le d = Ok e -> nonempty_regions e).
 Proof.
-  intros le d Hne Hsz Hg. unfold from_utf16.
-  assert (H := from16_regions_sim le d Hsz d [] 0 tbuf_init eq_refl Hne Hg
+  intros le d Hne Hsz. unfold from_utf16.
+  assert (H := from16_regions_sim le d Hsz d [] 0 tbuf_init eq_refl Hne
                  ltac:(pose proof (Zlength_nonneg (flat d)); lia) ltac:(auto) tb_ok_init eq_refl).
   change (Zlength (@nil Z)) with 0 in H. change (Z.to_nat 0) with 0%nat in H. change (skipn 0 ?l) with l in H.
   change (0 + 0 =? 0) with true in H. change (bout tbuf_init) with (@nil Z) in H.
   unfold from16_flat.
   destruct (apply_regions (from16_region d le) d 0 (0, tbuf_init)) as [[sk b]| |]; cbn [bind flat_res].
-  - destruct H as [Hc Hv]. rewrite Hv. unfold bout. rewrite Hc. cbn [rev]. rewrite app_nil_r. reflexivity.
-  - rewrite H. reflexivity.
+  - destruct H as (Hokb & Hc & Hv). rewrite Hv. unfold bout. rewrite Hc. cbn [rev]. rewrite app_nil_r.
+    split; [reflexivity|]. intros e He. inversion He; subst e. apply Hokb.
+  - rewrite H. split; [reflexivity|discriminate].
   - contradiction.
 Qed.
 
@@ -1496,16 +1528,15 @@ Proof.
     change (seq_val [239; 187; 191]) with (Some 65279) in Sv. inversion Sv. reflexivity.
 Qed.
 
-Definition wf_utf (d : data) : Prop :=
-  Forall (fun r => r <> []) d /\ dsize d < 2 ^ 60 /\ Forall guard16 d /\ Forall guard8 d.
+(* a data object: no empty region (data.c never builds one), size below 2^60.  NO bound on region sizes. *)
+Definition wf_utf (d : data) : Prop := nonempty_regions d /\ dsize d < 2 ^ 60.
 
 (* C20, UTF clause.  For every sequence cps of Unicode scalar values, every split d of its UTF-8 encoding into regions
    (inside multi-byte sequences too) and every split d' of the produced UTF-16 text (inside code units and surrogate
    pairs too): the conversion succeeds, produces BOM + the code units of cps without one leading U+FEFF -- whatever the
    split --, and converting back gives cps without up to TWO leading U+FEFF: the first is replaced by the encoder's own
    BOM (transform.c:362), which the decoder drops (transform.c:466); a second one is removed by
-   _dispatch_transform_to_utf8_without_bom (transform.c:571).  wf_utf carries the explicit size guard of
-   transform.c:158 (guard16 / guard8) for every region. *)
+   _dispatch_transform_to_utf8_without_bom (transform.c:571).  Regions may have any size. *)
 Theorem utf_roundtrip_all_splits : forall le cps d,
   Forall scalar cps -> flat d = utf8_of cps -> wf_utf d ->
   exists e, transform d F_UTF8 (fmt16 le) = Ok e /\
@@ -1513,7 +1544,7 @@ Theorem utf_roundtrip_all_splits : forall le cps d,
     forall d', flat d' = flat e -> wf_utf d' ->
       flat_res (transform d' (fmt16 le) F_UTF8) = Ok (utf8_of (strip1 (strip1 cps))).
 Proof.
-  intros le cps d Hs Hd (Hne & Hsz & Hg16 & Hg8). rewrite transform_8_16.
+  intros le cps d Hs Hd (Hne & Hsz). rewrite transform_8_16.
   assert (Hstrip : Forall scalar (strip1 cps)).
   { destruct cps as [|cp t]; [constructor|]. unfold strip1. destruct (cp =? 65279); [|exact Hs].
     apply Forall_cons_iff in Hs. tauto. }
@@ -1527,16 +1558,16 @@ Proof.
     intros d' Hd' _. rewrite transform_16_8.
     assert (E' : dsize d' = 0) by (unfold dsize; rewrite Hd', Hfd; reflexivity).
     rewrite E'. change (0 =? 0) with true. cbv iota. cbn [flat_res]. rewrite Hd', Hfd. reflexivity.
-  - assert (HF := to_utf16_flat le d Hne Hsz Hg16). rewrite Hd, (to16_flat_scalars le cps Hs) in HF.
+  - assert (HF := proj1 (to_utf16_flat le d Hne Hsz)). rewrite Hd, (to16_flat_scalars le cps Hs) in HF.
     destruct (to_utf16 le d) as [e| |]; cbn [flat_res] in HF; try discriminate.
     exists e. split; [reflexivity|]. inversion HF as [He]. split; [reflexivity|].
     assert (Hcne : cps <> []) by (intro Hc; subst cps; apply E; unfold dsize; rewrite Hd; reflexivity).
     destruct cps as [|cp0 t0]; [contradiction|].
-    intros d' Hd' (Hne' & Hsz' & _ & Hg8'). rewrite transform_16_8.
+    intros d' Hd' (Hne' & Hsz'). rewrite transform_16_8.
     assert (E' : dsize d' <> 0).
     { unfold dsize. rewrite Hd', He. intro Hc. apply Zlength_nil_inv in Hc. destruct le; discriminate. }
     destruct (Z.eqb_spec (dsize d') 0); [contradiction|].
-    assert (HF' := from_utf16_flat le d' Hne' Hsz' Hg8').
+    assert (HF' := proj1 (from_utf16_flat le d' Hne' Hsz')).
     rewrite Hd', He, (from16_flat_bom_scalars le _ Hstrip) in HF'.
     destruct (from_utf16 le d') as [t| |]; cbn [flat_res] in HF'; try discriminate. cbn [bind].
     destruct (to_utf8_without_bom_flat t) as (t' & Et & Ft). rewrite Et. cbn [flat_res].
@@ -1551,8 +1582,8 @@ Theorem utf8_to_utf16_total : forall le d, wf_utf d ->
     (if dsize d =? 0 then Ok (flat d) else match to16_flat le (flat d) with Some x => Ok x | None => Null end) /\
   (forall site, transform d F_UTF8 (fmt16 le) <> OOB site).
 Proof.
-  intros le d (Hne & Hsz & Hg16 & Hg8). rewrite transform_8_16.
-  assert (HF := to_utf16_flat le d Hne Hsz Hg16). split.
+  intros le d (Hne & Hsz). rewrite transform_8_16.
+  assert (HF := proj1 (to_utf16_flat le d Hne Hsz)). split.
   - destruct (dsize d =? 0); [reflexivity|exact HF].
   - intros site. destruct (dsize d =? 0); [discriminate|]. intro Hc. rewrite Hc in HF. cbn in HF.
     destruct (to16_flat le (flat d)); discriminate.
@@ -1566,8 +1597,8 @@ Theorem utf16_to_utf8_total : forall le d, wf_utf d ->
      else match from16_flat le (flat d) with Some x => Ok (strip_bom8 x) | None => Null end) /\
   (forall site, transform d (fmt16 le) F_UTF8 <> OOB site).
 Proof.
-  intros le d (Hne & Hsz & Hg16 & Hg8). rewrite transform_16_8.
-  assert (HF := from_utf16_flat le d Hne Hsz Hg8).
+  intros le d (Hne & Hsz). rewrite transform_16_8.
+  assert (HF := proj1 (from_utf16_flat le d Hne Hsz)).
   destruct (dsize d =? 0); [split; [reflexivity|discriminate]|].
   destruct (from_utf16 le d) as [t| |]; cbn [flat_res bind] in *.
   - destruct (to_utf8_without_bom_flat t) as (t' & Et & Ft). rewrite Et. cbn [flat_res].
@@ -1812,3 +1843,136 @@ Qed.
 
 Theorem none_to_none_identity : forall d, transform d F_NONE F_NONE = Ok d.
 Proof. intros d. assert (E : transform d F_NONE F_NONE = if dsize d =? 0 then Ok d else Ok d) by reflexivity. rewrite E. destruct (dsize d =? 0); reflexivity. Qed.
+
+(* ------------------------------------------------------------------------------------------------ the RETURNED object
+   is itself a well-formed object (no empty region, bounded size), so every theorem above that speaks about "any split
+   d' of the returned text" applies in particular to d' := the returned object *)
+
+Section Returned.
+Local Ltac Zify.zify_post_hook ::= Z.div_mod_to_equations.
+
+Lemma unit16_len : forall le v, Zlength (unit16 le v) = 2.
+Proof. intros [|] v; reflexivity. Qed.
+
+Lemma emit16_len : forall le first wch out, emit16 le first wch = Some out -> Zlength out <= 4.
+Proof.
+  intros le first wch out H. unfold emit16 in H.
+  destruct ((wch =? 65279) && first); [inversion H; subst; rewrite Zlength_nil; lia|].
+  destruct ((55296 <=? wch) && (wch <=? 57343)); [discriminate|].
+  destruct (65536 <=? wch); inversion H; subst; rewrite ?Zlength_app, !unit16_len; lia.
+Qed.
+
+Lemma to16_floop_len : forall le fuel first l acc U,
+  to16_floop le fuel first l acc = Some U -> Zlength U <= Zlength acc + 4 * Zlength l.
+Proof.
+  intros le. induction fuel as [|f IH]; intros first l acc U H; pose proof (Zlength_nonneg l) as Hl.
+  - destruct l; [|discriminate]. inversion H; subst. lia.
+  - destruct l as [|b tl]; [inversion H; subst; lia|].
+    cbn [to16_floop] in H. destruct (to16_step le first (b :: tl)) as [[out rest]|] eqn:Es; [|discriminate].
+    apply IH in H. unfold to16_step in Es.
+    destruct (Z.eqb_spec (utf8_length b) 0) as [E0|E0]; [discriminate|].
+    destruct (Z.ltb_spec (Zlength (b :: tl)) (utf8_length b)); [discriminate|].
+    destruct (seq_val (b :: tl)) as [wch|]; [|discriminate].
+    destruct (emit16 le first wch) as [o|] eqn:Ee; [|discriminate]. inversion Es; subst o rest.
+    apply emit16_len in Ee. rewrite Zlength_app in H.
+    assert (Hbs : 1 <= utf8_length b) by (destruct (utf8_length_cases b) as [?|[?|[?|[?|?]]]]; lia).
+    rewrite Zlength_skipn_Z in H by lia. lia.
+Qed.
+
+Lemma to16_flat_len : forall le l U, to16_flat le l = Some U -> Zlength U <= 4 * Zlength l + 2.
+Proof.
+  intros le l U H. unfold to16_flat in H. destruct l as [|c tl]; [inversion H; subst; rewrite !Zlength_nil; lia|].
+  unfold G16 in H. apply to16_floop_len in H. unfold bom16 in H. rewrite unit16_len in H. lia.
+Qed.
+
+Lemma utf8_enc_len : forall w, Zlength (utf8_enc w) <= 4.
+Proof. intros w. unfold utf8_enc. repeat match goal with |- context [if ?c then _ else _] => destruct c end; cbn; lia. Qed.
+
+Lemma from16_floop_len : forall le fuel first l acc V,
+  from16_floop le fuel first l acc = Some V -> Zlength V <= Zlength acc + 2 * Zlength l.
+Proof.
+  intros le. induction fuel as [|f IH]; intros first l acc V H; pose proof (Zlength_nonneg l) as Hl.
+  - destruct l; [|discriminate]. inversion H; subst. lia.
+  - destruct l as [|b0 tl]; [inversion H; subst; lia|].
+    cbn [from16_floop] in H. destruct (from16_step le first (b0 :: tl)) as [[out rest]|] eqn:Es; [|discriminate].
+    apply IH in H. rewrite Zlength_app in H. unfold from16_step in Es.
+    destruct tl as [|b1 tl]; [discriminate|]. cbv zeta in Es.
+    destruct ((get16 le b0 b1 =? 65534) && first); [discriminate|].
+    destruct ((get16 le b0 b1 =? 65279) && first).
+    { inversion Es; subst. rewrite !Zlength_cons, Zlength_nil in *. lia. }
+    destruct (is_hi (get16 le b0 b1)).
+    + destruct tl as [|c0 [|c1 tl']]; try discriminate. destruct (negb (is_lo (get16 le c0 c1))); [discriminate|].
+      inversion Es; subst. pose proof (utf8_enc_len (pair_val (get16 le b0 b1) (get16 le c0 c1))).
+      rewrite !Zlength_cons in *. lia.
+    + destruct (is_lo (get16 le b0 b1)); [discriminate|]. inversion Es; subst.
+      pose proof (utf8_enc_len (get16 le b0 b1)). rewrite !Zlength_cons in *. lia.
+Qed.
+
+Lemma from16_flat_len : forall le l V, from16_flat le l = Some V -> Zlength V <= 2 * Zlength l.
+Proof. intros le l V H. unfold from16_flat, G8 in H. apply from16_floop_len in H. rewrite Zlength_nil in H. lia. Qed.
+
+Lemma strip_bom8_len : forall l, Zlength (strip_bom8 l) <= Zlength l.
+Proof.
+  intros [|a [|b [|c t]]]; cbn [strip_bom8]; try lia. destruct ((a =? 239) && (b =? 187) && (c =? 191)); [|lia].
+  rewrite !Zlength_cons. lia.
+Qed.
+
+Lemma to_utf8_without_bom_nonempty : forall t t', nonempty_regions t -> to_utf8_without_bom t = Ok t' -> nonempty_regions t'.
+Proof.
+  intros t t' Hne H. unfold to_utf8_without_bom in H. destruct (sub_map t 0 3) as [m|]; [|inversion H; subst; exact Hne].
+  destruct (rdo 579 m 0) as [b0| |]; cbn [bind] in H; try discriminate.
+  destruct (rdo 579 m 1) as [b1| |]; cbn [bind] in H; try discriminate.
+  destruct (rdo 579 m 2) as [b2| |]; cbn [bind] in H; try discriminate.
+  destruct ((b0 =? 239) && (b1 =? 187) && (b2 =? 191)); inversion H; subst; [apply nonempty_create|exact Hne].
+Qed.
+
+(* the object UTF-8 -> UTF-16 returns is well formed *)
+Theorem utf8_to_utf16_output_wf : forall le d e, wf_utf d -> dsize d < 2 ^ 57 ->
+  transform d F_UTF8 (fmt16 le) = Ok e -> wf_utf e.
+Proof.
+  intros le d e (Hne & Hsz) Hs He. rewrite transform_8_16 in He.
+  destruct (Z.eqb_spec (dsize d) 0); [inversion He; subst; split; assumption|].
+  destruct (to_utf16_flat le d Hne Hsz) as [HF HN]. split; [apply HN, He|].
+  rewrite He in HF. cbn [flat_res] in HF. destruct (to16_flat le (flat d)) as [U|] eqn:EU; [|discriminate].
+  inversion HF as [H1]. apply to16_flat_len in EU. unfold dsize in *. rewrite H1. lia.
+Qed.
+
+(* the object UTF-16 -> UTF-8 returns is well formed *)
+Theorem utf16_to_utf8_output_wf : forall le d e, wf_utf d -> dsize d < 2 ^ 58 ->
+  transform d (fmt16 le) F_UTF8 = Ok e -> wf_utf e.
+Proof.
+  intros le d e (Hne & Hsz) Hs He. rewrite transform_16_8 in He.
+  destruct (Z.eqb_spec (dsize d) 0); [inversion He; subst; split; assumption|].
+  destruct (from_utf16_flat le d Hne Hsz) as [HF HN].
+  destruct (from_utf16 le d) as [t| |] eqn:Et; cbn [bind] in He; try discriminate.
+  cbn [flat_res] in HF. destruct (from16_flat le (flat d)) as [V|] eqn:EV; [|discriminate]. inversion HF as [H1].
+  split; [eapply to_utf8_without_bom_nonempty; [apply HN; reflexivity|exact He]|].
+  destruct (to_utf8_without_bom_flat t) as (t' & E' & F'). rewrite He in E'. inversion E'; subst t'.
+  apply from16_flat_len in EV. pose proof (strip_bom8_len (flat t)). unfold dsize in *. rewrite F', H1 in *. lia.
+Qed.
+
+(* C20 "returns NULL or data the inverse transform accepts", stated about THE RETURNED OBJECT e itself *)
+Theorem utf8_to_utf16_returned_accepted : forall le d e, wf_utf d -> dsize d < 2 ^ 57 ->
+  transform d F_UTF8 (fmt16 le) = Ok e -> exists t, transform e (fmt16 le) F_UTF8 = Ok t.
+Proof.
+  intros le d e Hwf Hs He.
+  exact (utf8_to_utf16_inverse_accepts le d e Hwf He e eq_refl (utf8_to_utf16_output_wf le d e Hwf Hs He)).
+Qed.
+
+Theorem utf16_to_utf8_returned_accepted : forall le d e, wf_utf d -> dsize d < 2 ^ 58 -> bytes (flat d) ->
+  transform d (fmt16 le) F_UTF8 = Ok e -> exists t, transform e F_UTF8 (fmt16 le) = Ok t.
+Proof.
+  intros le d e Hwf Hs Hb He.
+  exact (utf16_to_utf8_inverse_accepts le d e Hwf Hb He e eq_refl (utf16_to_utf8_output_wf le d e Hwf Hs He)).
+Qed.
+
+(* the round trip applied to the returned object *)
+Theorem utf_roundtrip_returned : forall le cps d, Forall scalar cps -> flat d = utf8_of cps -> wf_utf d -> dsize d < 2 ^ 57 ->
+  exists e, transform d F_UTF8 (fmt16 le) = Ok e /\ wf_utf e /\
+            flat_res (transform e (fmt16 le) F_UTF8) = Ok (utf8_of (strip1 (strip1 cps))).
+Proof.
+  intros le cps d Hs Hd Hwf Hsz. destruct (utf_roundtrip_all_splits le cps d Hs Hd Hwf) as (e & He & Hf & Hall).
+  exists e. split; [exact He|]. assert (Hwe := utf8_to_utf16_output_wf le d e Hwf Hsz He).
+  split; [exact Hwe|]. apply Hall; [reflexivity|exact Hwe].
+Qed.
+End Returned.
